@@ -1,12 +1,13 @@
 (** C23 Model: the HTTP/1.1 client's response side (twisted.web._newclient).
 
     Two layers.
-    (1) [scan]: what HTTPClientParser (+ LineReceiver with delimiter "\n", _contentLength,
-        _IdentityTransferDecoder, _ChunkedTransferDecoder) has made of ALL the bytes received so far,
-        as a function of those bytes (a "whole prefix" view: head complete / bad / still missing,
-        the framing chosen, the body bytes decoded so far, body finished / malformed / still open).
-        Executable; tied to the code by the correspondence run on every truncation point and random
-        segmentations (segmentation invariance of the real parser is checked there, not proved).
+    (1) [pstep]/[parse]: HTTPClientParser (+ LineReceiver with delimiter "\n", _contentLength,
+        _IdentityTransferDecoder, _ChunkedTransferDecoder) as a FRAMED receiver in the sense of
+        Lib/Seg.v: a parser mode plus a buffer; one [pstep] consumes one frame (a line, a chunk-size
+        line, one body byte, a CRLF) and emits parser events, waits for more bytes, or fails.
+        [parse] iterates it; the incremental receiver is "append the delivery to the buffer, then
+        parse" ([Seg.bfeed]).  Body bytes are emitted one [PData] per byte so that the events do not
+        depend on how the stream is cut (the machine only ever concatenates them).
     (2) [step]/[run]: the event machine made of HTTPClientParser.allHeadersReceived /
         connectionLost, HTTP11ClientProtocol._finishResponse / _giveUp / _connectionLost_WAITING /
         _disconnectParser and the Response delivery states (INITIAL / CONNECTED / DEFERRED_CLOSE /
@@ -14,7 +15,7 @@
         of what the request Deferred and the body consumer have seen.  The theorems are about (2),
         for every event history.  No proofs here. *)
 From Coq Require Import List NArith Bool.
-From TwLib Require Import HttpClientBytes.
+From TwLib Require Import HttpClientBytes Seg.
 Import ListNotations.
 Local Open Scope N_scope.
 
@@ -141,11 +142,7 @@ Definition step (s : mstate) (e : ev) : mstate :=
 
 Definition run (evs : list ev) : mstate := fold_left step evs init.
 
-(** * (1) the whole-prefix view of the parser *)
-
-Inductive shead := HNone | HBad | HOk (code : N) (f : framing).
-Inductive sbody := BOpen | BFinished | BMalformed.
-Record sview := mkView { s_head : shead; s_body : bytes; s_end : sbody }.
+(** * (1) the parser as a framed receiver *)
 
 Definition is_nil (l : bytes) : bool := match l with [] => true | _ => false end.
 
@@ -154,13 +151,6 @@ Fixpoint strip_cr (l : bytes) : bytes :=
   | [] => []
   | [c] => if c =? 13 then [] else [c]
   | c :: r => c :: strip_cr r
-  end.
-
-(** LineReceiver(delimiter = "\n") + `if line[-1:] == b"\r": line = line[:-1]` *)
-Definition next_line (l : bytes) : option (bytes * bytes) :=
-  match split_at 10 l with
-  | Some (a, b) => Some (strip_cr a, b)
-  | None => None
   end.
 
 Definition token_chars : bytes :=
@@ -198,32 +188,6 @@ Definition flush (head_method : bool) (partial : option bytes) (te cl : list byt
             else if eqb_bytes name H_CL && negb head_method then Some (te, cl ++ [strip value])
             else Some (te, cl)
           else None
-      end
-  end.
-
-Inductive hres := HRIncomplete | HRBad | HRDone (te cl : list bytes) (rest : bytes).
-
-Fixpoint headers (fuel : nat) (head_method : bool) (l : bytes) (partial : option bytes)
-         (te cl : list bytes) : hres :=
-  match fuel with
-  | O => HRIncomplete
-  | S f =>
-      match next_line l with
-      | None => HRIncomplete
-      | Some (line, rest) =>
-          let lws := match line with c :: _ => (c =? 32) || (c =? 9) | [] => false end in
-          if lws then
-            match partial with
-            | None => HRBad
-            | Some p => headers f head_method rest (Some (p ++ line)) te cl
-            end
-          else
-            match flush head_method partial te cl with
-            | None => HRBad
-            | Some (te', cl') =>
-                if is_nil line then HRDone te' cl' rest
-                else headers f head_method rest (Some line) te' cl'
-            end
       end
   end.
 
@@ -286,68 +250,6 @@ Definition content_length (cl : list bytes) : option (option N) :=
 (** _chunkExtChars *)
 Definition ext_char (c : N) : bool := (c =? 9) || ((32 <=? c) && (c <=? 126)) || (128 <=? c).
 
-Definition starts_crlf (l : bytes) : option bytes :=
-  match l with
-  | c :: d :: r => if (c =? 13) && (d =? 10) then Some r else None
-  | _ => None
-  end.
-
-(** trailer section of _ChunkedTransferDecoder: lines up to the empty one *)
-Fixpoint trailer (fuel : nat) (l : bytes) : sbody :=
-  match fuel with
-  | O => BOpen
-  | S f =>
-      match split_crlf l with
-      | None => BOpen
-      | Some (line, rest) => if is_nil line then BFinished else trailer f rest
-      end
-  end.
-
-Fixpoint dechunk (fuel : nat) (l : bytes) (acc : bytes) : bytes * sbody :=
-  match fuel with
-  | O => (acc, BOpen)
-  | S f =>
-      match l with
-      | [] => (acc, BOpen)
-      | _ =>
-        match split_crlf l with
-        | None => (acc, BOpen)
-        | Some (szline, rest) =>
-            let (raw, ext) := match split_at 59 szline with Some p => p | None => (szline, []) end in
-            match read_hex raw with
-            | None => (acc, BMalformed)
-            | Some n =>
-                if negb (forallb ext_char ext) then (acc, BMalformed)
-                else if n =? 0 then (acc, trailer (S (length rest)) rest)
-                else
-                  match take_n n rest with
-                  | None => (acc ++ rest, BOpen)
-                  | Some (d, rest') =>
-                      match rest' with
-                      | [] | [_] => (acc ++ d, BOpen)
-                      | _ => match starts_crlf rest' with
-                             | Some rest'' => dechunk f rest'' (acc ++ d)
-                             | None => (acc ++ d, BMalformed)
-                             end
-                      end
-                  end
-            end
-        end
-      end
-  end.
-
-Definition body_view (f : framing) (rest : bytes) : bytes * sbody :=
-  match f with
-  | FNoBody => ([], BFinished)
-  | FLen n => if n =? 0 then ([], BFinished)
-              else match take_n n rest with
-                   | Some (d, _) => (d, BFinished)
-                   | None => (rest, BOpen)
-                   end
-  | FChunked => dechunk (S (length rest)) rest []
-  | FClose => (rest, BOpen)
-  end.
-
 (** allHeadersReceived: framing from the status code, the request method and the connection headers *)
 Definition choose_framing (head_method : bool) (code : N) (te cl : list bytes) : option framing :=
   if (code =? 204) || (code =? 304) || head_method then Some FNoBody
@@ -360,44 +262,202 @@ Definition choose_framing (head_method : bool) (code : N) (te cl : list bytes) :
                end
        end.
 
-Fixpoint scan_msgs (fuel : nat) (head_method : bool) (l : bytes) : sview :=
-  match fuel with
-  | O => mkView HNone [] BOpen
-  | S f =>
-      match next_line l with
-      | None => mkView HNone [] BOpen
-      | Some (status, rest) =>
-          match status_code status with
-          | None => mkView HBad [] BOpen
-          | Some code =>
-              match headers (S (length rest)) head_method rest None [] [] with
-              | HRIncomplete => mkView HNone [] BOpen
-              | HRBad => mkView HBad [] BOpen
-              | HRDone te cl rest' =>
-                  if (100 <=? code) && (code <? 200) then scan_msgs f head_method rest'
-                  else match choose_framing head_method code te cl with
-                       | None => mkView HBad [] BOpen
-                       | Some fr => let (b, e) := body_view fr rest' in mkView (HOk code fr) b e
-                       end
-              end
-          end
-      end
+(** parser modes: HTTPParser.state + _partialHeader + connHeaders, then the body decoder's state *)
+Inductive pmode :=
+| MStatus
+| MHeaders (code : N) (partial : option bytes) (te cl : list bytes)
+| MIdent (n : N)             (* _IdentityTransferDecoder, n > 0 bytes still expected *)
+| MClose                     (* _IdentityTransferDecoder(None) *)
+| MChunkLen                  (* _ChunkedTransferDecoder: CHUNK_LENGTH *)
+| MChunkBody (n : N)         (*   BODY, n > 0 bytes left in the chunk *)
+| MChunkCRLF                 (*   CRLF *)
+| MTrailer                   (*   TRAILER *)
+| MDone.                     (* HTTPParser.state = DONE: later bytes are not this response's *)
+
+Definition body_mode (f : framing) : pmode :=
+  match f with
+  | FNoBody => MDone
+  | FLen n => if n =? 0 then MDone else MIdent n
+  | FChunked => MChunkLen
+  | FClose => MClose
   end.
 
-Definition scan (method : bytes) (received : bytes) : sview :=
-  scan_msgs (S (length received)) (eqb_bytes method HEAD) received.
+Definition is_lws (line : bytes) : bool :=
+  match line with c :: _ => (c =? 32) || (c =? 9) | [] => false end.
 
-(** the parser events a view stands for *)
-Definition events_of (received : bytes) (v : sview) : list ev :=
-  (if is_nil received then [] else [PRecv]) ++
-  match s_head v with
-  | HNone => []
-  | HBad => [PBad]
-  | HOk code f =>
-      PHead code f :: (if is_nil (s_body v) then [] else [PData (s_body v)]) ++
-      match s_end v with
-      | BOpen => []
-      | BFinished => if immediate f then [] else [PFinish]
-      | BMalformed => [PBad]
-      end
+(** chunk-size line: 1*HEXDIG [ ";" ext ]  ->  Some size / None = _MalformedChunkedDataError *)
+Definition chunk_size (szline : bytes) : option N :=
+  let (raw, ext) := match split_at 59 szline with Some p => p | None => (szline, []) end in
+  match read_hex raw with
+  | None => None
+  | Some n => if forallb ext_char ext then Some n else None
+  end.
+
+Section Parser.
+  Variable head_method : bool.   (* the request's method is HEAD *)
+
+  (** one frame *)
+  Definition pstep (x : pmode) (b : bytes) : step_result N ev pmode :=
+    match x with
+    | MStatus =>
+        match split_at 10 b with
+        | None => Wait
+        | Some (a, rest) =>
+            match status_code (strip_cr a) with
+            | None => Fail [PBad]
+            | Some code => Emit [] (MHeaders code None [] []) rest
+            end
+        end
+    | MHeaders code partial te cl =>
+        match split_at 10 b with
+        | None => Wait
+        | Some (a, rest) =>
+            let line := strip_cr a in
+            if is_lws line then
+              match partial with
+              | None => Fail [PBad]                    (* None.append -> AttributeError *)
+              | Some p => Emit [] (MHeaders code (Some (p ++ line)) te cl) rest
+              end
+            else
+              match flush head_method partial te cl with
+              | None => Fail [PBad]
+              | Some (te', cl') =>
+                  if is_nil line then
+                    if (100 <=? code) && (code <? 200) then Emit [] MStatus rest
+                    else match choose_framing head_method code te' cl' with
+                         | None => Fail [PBad]
+                         | Some f => Emit [PHead code f] (body_mode f) rest
+                         end
+                  else Emit [] (MHeaders code (Some line) te' cl') rest
+              end
+        end
+    | MIdent n =>
+        match b with
+        | [] => Wait
+        | c :: r => if n <=? 1 then Emit [PData [c]; PFinish] MDone r
+                    else Emit [PData [c]] (MIdent (n - 1)) r
+        end
+    | MClose =>
+        match b with
+        | [] => Wait
+        | c :: r => Emit [PData [c]] MClose r
+        end
+    | MChunkLen =>
+        match split_crlf b with
+        | None => Wait
+        | Some (szline, rest) =>
+            match chunk_size szline with
+            | None => Fail [PBad]
+            | Some n => if n =? 0 then Emit [] MTrailer rest else Emit [] (MChunkBody n) rest
+            end
+        end
+    | MChunkBody n =>
+        match b with
+        | [] => Wait
+        | c :: r => Emit [PData [c]] (if n <=? 1 then MChunkCRLF else MChunkBody (n - 1)) r
+        end
+    | MChunkCRLF =>
+        match b with
+        | c :: d :: r => if (c =? 13) && (d =? 10) then Emit [] MChunkLen r else Fail [PBad]
+        | _ => Wait
+        end
+    | MTrailer =>
+        match split_crlf b with
+        | None => Wait
+        | Some (line, rest) => if is_nil line then Emit [PFinish] MDone rest else Emit [] MTrailer rest
+        end
+    | MDone => Wait
+    end.
+
+  (** everything the parser makes of a buffer: events, and the mode + unconsumed bytes it is left
+      with ([None] after a failure: the protocol has given up) *)
+  Definition parse : pmode -> bytes -> list ev * option (pmode * bytes) := fdrain pstep.
+
+  Definition pstate : Type := option (pmode * bytes).
+  Definition pinit : pstate := Some (MStatus, []).
+
+  (** HTTP11ClientProtocol.dataReceived *)
+  Definition pfeed : pstate -> bytes -> list ev * pstate := bfeed parse.
+
+  (** the parser events of a connection whose bytes arrive as the deliveries [cs] *)
+  Definition parser_events (cs : list bytes) : list ev := fst (Seg.run pfeed pinit cs).
+
+  (** ... and of the same bytes arriving at once *)
+  Definition whole_events (received : bytes) : list ev := fst (parse MStatus received).
+End Parser.
+
+(** * the session: deliveries, the application's deliverBody call, connection loss *)
+
+(** when the application calls deliverBody: never; between the deliveries [cs1] and [cs2] (if there
+    is no response yet, as soon as it arrives, i.e. from the Deferred's callback); after the
+    connection was lost *)
+Inductive dtime := TNever | TBetween | TAfterLost.
+
+Fixpoint deliver_at_head (evs : list ev) : list ev :=
+  match evs with
+  | [] => []
+  | PHead c f :: r => PHead c f :: UDeliver :: r
+  | e :: r => e :: deliver_at_head r
+  end.
+
+Definition has_head (evs : list ev) : bool :=
+  existsb (fun e => match e with PHead _ _ => true | _ => false end) evs.
+
+Definition all_empty (cs : list bytes) : bool := forallb is_nil cs.
+
+Definition session (head_method : bool) (cs1 cs2 : list bytes) (t : dtime) (lost : bool) : list ev :=
+  let '(e1, s1) := Seg.run (pfeed head_method) pinit cs1 in
+  let e2 := fst (Seg.run (pfeed head_method) s1 cs2) in
+  (if all_empty (cs1 ++ cs2) then [] else [PRecv]) ++
+  match t with
+  | TNever => e1 ++ e2
+  | TBetween => if has_head e1 then e1 ++ UDeliver :: e2 else e1 ++ deliver_at_head e2
+  | TAfterLost => e1 ++ e2
+  end ++
+  (if lost then [PLost] else []) ++
+  match t with TAfterLost => [UDeliver] | _ => [] end.
+
+(** * readings of the parser's event list (what the property talks about) *)
+Fixpoint head_of (evs : list ev) : option (N * framing) :=
+  match evs with
+  | [] => None
+  | PHead c f :: _ => Some (c, f)
+  | _ :: r => head_of r
+  end.
+
+Fixpoint body_of (evs : list ev) : bytes :=
+  match evs with
+  | [] => []
+  | PData d :: r => d ++ body_of r
+  | _ :: r => body_of r
+  end.
+
+Definition finished (evs : list ev) : bool :=
+  existsb (fun e => match e with PFinish => true | _ => false end) evs.
+Definition failed (evs : list ev) : bool :=
+  existsb (fun e => match e with PBad => true | _ => false end) evs.
+
+(** what the application must see, as a function of the parser's reading [W] of all the bytes
+    received, of whether anything was received, of when deliverBody is called and of whether the
+    connection was lost *)
+Definition asked_for (t : dtime) : bool := match t with TNever => false | _ => true end.
+
+Definition expected_fired (W : list ev) (nothing_received lost : bool) : list fire :=
+  match head_of W with
+  | Some (c, _) => [FResponse c]
+  | None => if lost || failed W then [if nothing_received then FNever else FFailed] else []
+  end.
+
+Definition expected_delivered (W : list ev) (t : dtime) : bytes :=
+  match head_of W with
+  | Some _ => if asked_for t then body_of W else []
+  | None => []
+  end.
+
+Definition expected_closed (W : list ev) (t : dtime) (lost : bool) : list reason :=
+  match head_of W with
+  | Some (_, f) =>
+      if asked_for t && (lost || finished W || failed W || immediate f)
+      then [reason_of f (finished W)] else []
+  | None => []
   end.
